@@ -93,6 +93,9 @@ func vC07Main(rep *vh.Report, c *enum.SegCase, thorough bool) {
 	}
 	defer func() {
 		if r := recover(); r != nil {
+			if s, ok := r.(string); ok && len(s) > 13 && s[:13] == "HARNESS-ERROR" {
+				panic(r)
+			}
 			fail("panic-in-segment-writer-or-scanner", "panic: %v", r)
 		}
 		rep.Outcome(fmt.Sprintf("%s|viol=%d", sig, nviol), nontrivial)
